@@ -332,3 +332,7 @@ func mustCid(s string) cid.Cid {
 	}
 	return c
 }
+
+type operationT = operation.Operation
+
+func jsonUnmarshal(b []byte, v interface{}) error { return json.Unmarshal(b, v) }
